@@ -64,6 +64,7 @@ class LoopScenario:
         ins(r'^<A as Default>::default$', self.m_default)
         ins(r'^<Box<dyn for<.a> FnOnce\(&.a mut A, &.a mut (context::)?Context<A>\).*as FnOnce<.*>>::call_once$', self.m_task_call)
         ins(r' as StreamExt>::next$', self.m_stream_next)
+        ins(r' as (futures::)?FutureExt>::now_or_never$', self.m_now_or_never)
         ins(r'^<R as (actor::restart_strategy::)?RestartStrategy<A>>::refresh$', self.m_refresh)
         ins(r'^StopNotifier::notify$', self.m_inline_suffix('::notify', 'StopNotifier'))
         ins(r'oneshot::Sender::<\(\)>::send$', self.m_oneshot_send)
@@ -132,6 +133,23 @@ class LoopScenario:
         # which stream? the mailbox (PollFn<Box<dyn FnMut..Payload..>>) or the attached stream S
         which = 'mailbox' if 'Payload<A>' in t.func else 'stream'
         return VAgg(name='leaf', fields={('f', 0): args[0]}, extra={'kind': 'next_' + which, 'n': 0})
+
+    def m_now_or_never(self, e, st, fr, t, args):
+        """FutureExt::now_or_never(fut): one poll with a no-op waker; Ready(v) -> Some(v), Pending -> None"""
+        fut = args[0]
+        if not (isinstance(fut, VAgg) and fut.name == 'leaf'):
+            return NotImplemented
+        ref = VRef(('obj', st.alloc(fut)), (), True)
+        outs = []
+        for s2, pv in self.leaf_poll(st, ref, fut):
+            if not s2.meta.get('panic_now'):
+                ready_now = isinstance(pv, VAgg) and pv.vname == 'Ready'
+                val = some(pv.fields[('v', 'Ready', 0)]) if ready_now else NONE
+                f2 = s2.frames[-1]
+                e.write_place(s2, f2, t.dest, val)
+                f2.bb = t.target
+            outs.append(s2)
+        return outs
 
     def m_delay_new(self, e, st, fr, t, args):
         st.event('delay_new', repr(args[0])[:40])
